@@ -84,12 +84,11 @@ def modelGuard : Handler := fun j => do
 def pieceJson : Piece → Json
   | .dropped => Json.arr #["dropped", ""]
   | .hint s => Json.arr #["hint", txt s]
-  | .pass => Json.arr #["pass", "pass\n"]
+  | .pass => Json.arr #["pass", "pass"]
   | .verbatim s => Json.arr #["verbatim", txt s]
 
 def loopJson (ts : List Token) (detail : Bool) : Json :=
-  let base := [("joined", txt (loopText ts)), ("final", txt (postprocess ts)),
-    ("raises", if loopRaises ts then Json.str "IndexError" else Json.null)]
+  let base := [("joined", txt (loopText ts)), ("final", txt (postprocess ts)), ("raises", Json.null)]
   if detail then
     Json.mkObj (base ++ [("emits", Json.arr ((loop ts).map fun e =>
       Json.arr #[Json.num (e.pad : Nat), pieceJson e.piece]).toArray)])
@@ -119,7 +118,7 @@ def specLoop : Handler := fun j => do
     let t := ts.getD i default
     Json.arr #[Json.bool (t.kind == .comment), Json.bool (t.kind == .comment && isHint t.str),
       Json.bool (t.kind == .string), Json.bool (Spec.atStmtStartB pre),
-      Json.bool (Spec.docstringLikeB ts i)]
+      Json.bool (Spec.docStmtB ts i)]
   pure (Json.mkObj [("rows", Json.arr rows.toArray)])
 
 /-- `c13.spec.text`: the text-level predicates of the property evaluated on any text
